@@ -9,7 +9,8 @@ Kinds == {"w", "cite", "stopv", "stop", "para", "oth"}
 NoCite == [ts |-> 0, te |-> 0, s |-> 0, e |-> 0, fs |-> 0, fe |-> 0, ps |-> 0, pe |-> 0]
 Init == words = <<>> /\ cite = NoCite /\ phase = "build"
 AddWord == /\ phase = "build" /\ Len(words) < MaxWords
-           /\ \E k \in Kinds, n \in 1..2 : words' = Append(words, [k |-> k, n |-> n])
+           /\ \E k \in Kinds, n \in 1..2, sm \in BOOLEAN :
+                (sm => k \notin {"stop", "stopv"}) /\ words' = Append(words, [k |-> k, n |-> n, semi |-> sm])
            /\ UNCHANGED <<cite, phase>>
 None == -99
 Pick(a, b) == IF a = None \/ a = -1 THEN b ELSE a   \* Python: override if not None else token offset (-1: PinSpanEnd's None)
